@@ -126,6 +126,9 @@ enum Op {
     Dsi(u64),
     Ea(u64),
     Ka(u64),
+    /// `exit_after` / `kill_after` through a `DerivedActorRef` (textual twins of the two above)
+    Dea(u64),
+    Dka(u64),
     Adv(u64),
     AdvAbort(u64, usize),
     AdvStop(u64),
@@ -146,6 +149,8 @@ impl Op {
             Op::Dsi(p) => format!("dsi {p}"),
             Op::Ea(p) => format!("ea {p}"),
             Op::Ka(p) => format!("ka {p}"),
+            Op::Dea(p) => format!("dea {p}"),
+            Op::Dka(p) => format!("dka {p}"),
             Op::Adv(d) => format!("adv {d}"),
             Op::AdvAbort(d, i) => format!("advabort {d} {i}"),
             Op::AdvStop(d) => format!("advstop {d}"),
@@ -167,6 +172,8 @@ impl Op {
             "dsi" => Op::Dsi(n(1)?),
             "ea" => Op::Ea(n(1)?),
             "ka" => Op::Ka(n(1)?),
+            "dea" => Op::Dea(n(1)?),
+            "dka" => Op::Dka(n(1)?),
             "adv" => Op::Adv(n(1)?),
             "advabort" => Op::AdvAbort(n(1)?, n(2)? as usize),
             "advstop" => Op::AdvStop(n(1)?),
@@ -265,6 +272,14 @@ async fn run_case(ops: &[Op]) -> Vec<String> {
             }
             Op::Ea(p) => timers.push(TimerRec { h: Handle::Unit(target.exit_after(ms(*p))), res: None }),
             Op::Ka(p) => timers.push(TimerRec { h: Handle::Unit(target.kill_after(ms(*p))), res: None }),
+            Op::Dea(p) => {
+                let d = target.get_derived::<DMsg>();
+                timers.push(TimerRec { h: Handle::Unit(d.exit_after(ms(*p))), res: None })
+            }
+            Op::Dka(p) => {
+                let d = target.get_derived::<DMsg>();
+                timers.push(TimerRec { h: Handle::Unit(d.kill_after(ms(*p))), res: None })
+            }
             Op::Adv(d) => tokio::time::advance(ms(*d)).await,
             Op::AdvAbort(d, i) => {
                 bump_clock(*d).await;
@@ -419,7 +434,13 @@ fn gen_case(rng: &mut Rng, st: &mut Stats) -> Vec<Op> {
                 // at most one exit_after per case: which of two simultaneous stop requests
                 // wins depends on tokio's wheel order, which the model does not describe
                 have_exit_after = true;
-                Op::Ea(*rng.pick(&per))
+                if rng.chance(1, 3) {
+                    Op::Dea(*rng.pick(&per))
+                } else {
+                    Op::Ea(*rng.pick(&per))
+                }
+            } else if rng.chance(1, 3) {
+                Op::Dka(*rng.pick(&per))
             } else {
                 Op::Ka(*rng.pick(&per))
             }
@@ -459,6 +480,8 @@ fn ms_case(ops: Vec<Op>) -> Vec<Op> {
             Dsi(p) => Dsi(p * 1000),
             Ea(p) => Ea(p * 1000),
             Ka(p) => Ka(p * 1000),
+            Dea(p) => Dea(p * 1000),
+            Dka(p) => Dka(p * 1000),
             Adv(d) => Adv(d * 1000),
             AdvAbort(d, i) => AdvAbort(d * 1000, i),
             AdvStop(d) => AdvStop(d * 1000),
@@ -513,6 +536,16 @@ fn fixed_cases() -> Vec<Vec<Op>> {
         vec![Sa(1), Sa(1), Si(1), Si(1), Adv(1), Adv(1), Kill, Adv(1)],
         vec![Dsa(5), Dsi(3), Adv(3), Adv(2), AdvAbort(1, 1), Kill, Adv(4)],
         vec![Dsi(2), Adv(7), Stop, Adv(2), Dsa(0), Dsi(1), Adv(3)],
+        // exit_after / kill_after through a derived ref: same behaviour as through the ActorRef
+        vec![Dka(0)],
+        vec![Dea(0)],
+        vec![Dka(2), Adv(1), Adv(1)],
+        vec![Dea(7), Adv(6), Adv(1)],
+        vec![Sa(5), Dka(5), Adv(5)],
+        vec![Si(3), Dka(6), Adv(6), Adv(3)],
+        vec![Dka(2), AdvAbort(2, 0), Adv(5)],
+        vec![Dea(7), Dka(7), Adv(7)],
+        vec![Dka(2), Stop, Adv(2)],
     ];
     let mut all: Vec<Vec<Op>> = whole.into_iter().map(ms_case).collect();
     all.extend(vec![
@@ -536,6 +569,9 @@ fn fixed_cases() -> Vec<Vec<Op>> {
         vec![Ea(2500), AdvAbort(3000, 0), Adv(1)],
         vec![Sa(1500), AdvKill(1999), Adv(1)],
         vec![Sa(1500), AdvDrain(2000), Adv(1)],
+        vec![Dka(2500), Adv(2000), Adv(500), Adv(500)],
+        vec![Dea(2500), Adv(2000), Adv(1000)],
+        vec![Sa(900), Dka(999), Adv(999), Adv(1)],
     ]);
     all
 }
